@@ -302,6 +302,9 @@ func registerSigModel(ex *Explorer) {
 	I["(*github.com/pegnet/pegnetd/fat/fat2.TransactionBatch).UnmarshalJSON"] = func(in *Interp, fn *ssa.Function, a []Value) Value {
 		tc := a[0].(*Cell)
 		data := a[1].(SliceVal)
+		if w, ok := data.Ext.(*wsVariant); ok {
+			data = w.of // whitespace does not change what is decoded
+		}
 		if _, isDoc := data.Ext.(*jsonDoc); isDoc {
 			// a modelled JSON document: the real decoder runs (object-level document model)
 			return in.callFunction(fn, a, nil)
